@@ -2162,7 +2162,10 @@ impl<T: Storage> Raft<T> {
                     return Ok(());
                 }
 
-                if self.prs().is_singleton() {
+                // The quorum round can only be skipped if this node itself is the single
+                // voter; a leader that has been removed from the configuration may have
+                // been superseded by the remaining voter.
+                if self.promotable && self.prs().is_singleton() {
                     let read_index = self.raft_log.committed;
                     if let Some(m) = self.handle_ready_read_index(m, read_index) {
                         self.r.send(m, &mut self.msgs);
